@@ -80,6 +80,7 @@ func (c *controller) SetBalancer(l log.Logger, name string, svcRo *v1.Service, _
 
 	prevIPs := c.ips.IPs(name)
 	prevAllocKey := c.ips.AllocationKey(name)
+	prevOccupation := c.ips.Occupation(name)
 
 	if c.convergeBalancer(l, name, svc) != nil {
 		syncStateRes = controllers.SyncStateErrorNoRetry
@@ -89,6 +90,14 @@ func (c *controller) SetBalancer(l log.Logger, name string, svcRo *v1.Service, _
 
 	if prevAllocKey != newAllocKey {
 		level.Debug(l).Log("event", "allocation key changed", "msg", "allocation changed for shared service, reprocessing")
+		syncStateRes = controllers.SyncStateReprocessAll
+	}
+
+	if prevOccupation != "" && prevOccupation != c.ips.Occupation(name) {
+		// The service gave up addresses or ports (it moved to other
+		// addresses, changed its ports or lost its allocation): services
+		// waiting for an address may fit now.
+		level.Debug(l).Log("event", "occupation changed", "msg", "service released addresses or ports, reprocessing")
 		syncStateRes = controllers.SyncStateReprocessAll
 	}
 
